@@ -122,6 +122,22 @@ def _points(spec, seed, tier):
   for i in range(3 if tier == 'quick' else 12):
     reg.append(('regular %d' % i, base(0.9), rng.uniform(-1, 1, nv),
                 rng.uniform(-0.6, 0.5, nu)))
+  # limits that are active during the whole rollout (no switching): every
+  # limited coordinate 0.25 beyond its upper bound, small velocities
+  q = base(0.5)
+  off = 0
+  any_lim = False
+  for l in spec['links']:
+    w = 7 if l['kind'] == 'F' else len(l['kind'])
+    if l['kind'] != 'F':
+      for j, r in enumerate(l['range']):
+        if r is not None:
+          q[off + j] = r[1] + 0.25
+          any_lim = True
+    off += w
+  if any_lim:
+    reg.append(('all limits active', q, rng.uniform(-0.05, 0.05, nv),
+                np.zeros(nu)))
   return sing, reg
 
 
